@@ -276,3 +276,80 @@ func c14blackStar(c *core.Check) {
 		"under '*' the existence answer in black-list mode is decided on the returned child",
 		strings.Join(bad, "; ")+": the receiver always has the child `all`, so in black-list mode every index/key/field passes under a complete path that ends in '*' (`$.L[*]`, `$.M{*}`, `$.*`), contrary to 'return false for a complete path'")
 }
+
+// c14descUnwrapped: addPath walks a path and a type descriptor in parallel; at every step it asks the descriptor for its
+// kind (IsList, IsMap, GetStructDescriptor, …). A descriptor that names a typedef answers none of these, so every
+// descriptor the loop continues with has to be the unwrapped one. Rule: each assignment to the loop's descriptor variable
+// (the parameter of type *TypeDescriptor) has as right-hand side a call of unwrapDesc, or a local whose only definition is
+// such a call. Otherwise `$.L[*].A` over `list<Key>` with `typedef Val Key` is rejected although `$.L[0].A` is accepted.
+func c14descUnwrapped(c *core.Check) {
+	fd := c.Prog.FuncDecl(fmRel, "FieldMask.addPath")
+	key := fmRel + ".(FieldMask).addPath/descriptor"
+	if fd == nil {
+		c.Unknown("anchor", key, "", "missing")
+		return
+	}
+	info := c.Prog.Pkg(fmRel).TypesInfo
+	// the descriptor parameter
+	var desc types.Object
+	for _, f := range fd.Type.Params.List {
+		for _, nm := range f.Names {
+			if o := info.Defs[nm]; o != nil && strings.HasSuffix(o.Type().String(), "TypeDescriptor") {
+				desc = o
+			}
+		}
+	}
+	if desc == nil {
+		c.Unknown("descriptor-unwrapped-before-use", key, c.Prog.Rel(fd.Pos()), "no descriptor parameter")
+		return
+	}
+	isUnwrap := func(e ast.Expr) bool {
+		call, ok := ast.Unparen(e).(*ast.CallExpr)
+		if !ok {
+			return false
+		}
+		fn := rules.Callee(info, call)
+		return fn != nil && fn.Name() == "unwrapDesc"
+	}
+	// locals: all definitions
+	defs := map[types.Object][]ast.Expr{}
+	ast.Inspect(fd.Body, func(m ast.Node) bool {
+		as, ok := m.(*ast.AssignStmt)
+		if !ok || len(as.Lhs) != len(as.Rhs) {
+			return true
+		}
+		for i, l := range as.Lhs {
+			if id, ok := l.(*ast.Ident); ok {
+				o := info.Defs[id]
+				if o == nil {
+					o = info.Uses[id]
+				}
+				if o != nil {
+					defs[o] = append(defs[o], as.Rhs[i])
+				}
+			}
+		}
+		return true
+	})
+	n := 0
+	for i, rhs := range defs[desc] {
+		n++
+		ok := isUnwrap(rhs)
+		if id, isID := ast.Unparen(rhs).(*ast.Ident); isID && !ok {
+			if o := info.Uses[id]; o != nil && len(defs[o]) > 0 {
+				ok = true
+				for _, d := range defs[o] {
+					if !isUnwrap(d) {
+						ok = false
+					}
+				}
+			}
+		}
+		c.Decide(ok, "descriptor-unwrapped-before-use", fmt.Sprintf("%s#%d", key, i+1), c.Prog.Rel(rhs.Pos()),
+			"the descriptor the loop continues with is the result of unwrapDesc",
+			"the loop continues with the descriptor "+rules.ExprString(rhs)+", which is not the result of unwrapDesc: when it names a typedef the next segment's kind test fails, so `$.L[*].A` over `list<Key>` (typedef Val Key) is rejected with \"isn't STRUCT\" while `$.L[0].A` is accepted")
+	}
+	if n < 3 {
+		c.Unknown("descriptor-unwrapped-before-use", key, c.Prog.Rel(fd.Pos()), fmt.Sprintf("expected at least three assignments to the descriptor, found %d", n))
+	}
+}
